@@ -405,17 +405,23 @@ def lazy_checks(stream, msgs, rng, rec):
     finally:
         os.unlink(tmpname)
     # several files
-    k = rng.randint(2, 3)
-    cuts = sorted(rng.sample(range(1, max(2, len(carried))), min(k - 1, max(1, len(carried) - 1)))) if len(carried) > 2 else []
+    k = rng.randint(2, 4)
+    # cut points may coincide or sit at the ends: some of the files are empty (first, middle or last)
+    cuts = sorted(rng.choice((0, len(carried), rng.randrange(len(carried) + 1), rng.randrange(len(carried) + 1))) for _ in range(k - 1))
     parts = [carried[a:b] for a, b in zip([0] + cuts, cuts + [len(carried)])]
     starts = [0] + cuts
+    rec.count("multi_file_runs")
+    if any(not p for p in parts[:-1]):
+        rec.count("multi_file_runs_with_empty_inner_file")
     log = []
     files = [LoggedFile(p, log, i) for i, p in enumerate(parts)]
     consumed = 0
     rec.case(("lazy", "files", stream.sig), nontrivial=True)
+    n_events = 0
     try:
         for ev in Binary.marshal(tpm_type=CommandResponseStream, buffer=bytes_from_files(files), abort_on_error=True):
             e = TR.record_event(ev)
+            n_events += 1
             if e.kind == "M" and isinstance(e.chunk, bytes):
                 consumed += len(e.chunk) if isinstance(e.chunk, bytes) else 0
             rec.count("lazy_files_events")
@@ -426,6 +432,14 @@ def lazy_checks(stream, msgs, rng, rec):
                     return
     except Exception:
         rec.count("lazy_files_decode_error")
+        n_events = -1
+    try:
+        whole_n = len(whole)
+    except NameError:
+        whole_n = None
+    if whole_n is not None and n_events != whole_n:
+        rec.violation("source-kind", "several-files", f"{len(carried)} bytes supplied as {len(parts)} files of sizes {[len(p) for p in parts]} decode to {n_events} events, supplied as bytes to {whole_n}",
+                      dict(lazy="files", t="CommandResponseStream", d=carried.hex()))
 
 
 def replay_lazy(r, rec):
